@@ -132,6 +132,8 @@ def check(run):
             run.check(obj_is(s.extra['kwargs'].get('event'), evp) and guard_atoms(s.node) == guard_atoms(c), r, ri.short,
                       "'event sent' carries the event, under the same condition as the queueing", 'attribute or condition differs', s.node)
 
+    from . import c05
+    c05.rules_send(run, 'C10', '.7')
     r = run.rule('C10.3', 'delivery: a MetaEvent is handed to every element of _listeners once, in list order, no filter, no early exit; attach appends, detach removes')
     loops = [n for n in q.walk(R, False) if isinstance(n, ast.For) and dotted(strip_cast(n.iter)) == 'self._listeners']
     run.check(len(loops) == 1, r, ri.short, 'single delivery loop over self._listeners', 'found %d' % len(loops), R)
